@@ -257,3 +257,13 @@ Open Scope Qc_scope.
 Example C17_aqt_example : exists o : aqt_cirq_op (K:=K8), aqt_cirq_unit K8Ops o /\ aqt_cirq_wires_ok 3 o = true.
 Proof. exists (CXXPow (mk8 0 1 0 0) (mk8 0 0 0 (-(1))) (mk8 1 0 0 0) 2%nat 0%nat). split; vm_compute; reflexivity. Qed.
 Close Scope Qc_scope.
+
+(* non-vacuity of the classes e = +-1/4 (mod 2) (gates t, ti): Q(zeta_16) satisfies the laws and contains r = zeta_16 with
+   r^2 = (1 + i)/sqrt 2, and its inverse with r^2 = (1 - i)/sqrt 2 *)
+From VF Require Import Vendor.K16.
+Example C17_class_quarter_inhabited : Laws K16Ops /\ exists r rc : K16,
+  kmul K16Ops r rc = k1 K16Ops /\ kmul K16Ops r r = kmul K16Ops (ks2 K16Ops) (kadd K16Ops (k1 K16Ops) (ki K16Ops)).
+Proof. split; [exact K16Laws|]. exists w16, w16c. split; vm_compute; reflexivity. Qed.
+Example C17_class_mquarter_inhabited : exists r rc : K16,
+  kmul K16Ops r rc = k1 K16Ops /\ kmul K16Ops r r = kmul K16Ops (ks2 K16Ops) (ksub K16Ops (k1 K16Ops) (ki K16Ops)).
+Proof. exists w16c, w16. split; vm_compute; reflexivity. Qed.
